@@ -196,6 +196,10 @@ def reaching(path: Path, name: str, upto: int | None = None) -> ast.expr | None:
                         for a, b in zip(t.elts, st.value.elts):
                             if isinstance(a, ast.Name) and a.id == name:
                                 val = b
+                    elif isinstance(t, ast.Tuple):
+                        for i, a in enumerate(t.elts):
+                            if isinstance(a, ast.Name) and a.id == name:
+                                val = ast.Subscript(st.value, ast.Constant(i), ast.Load())
             elif isinstance(st, ast.AnnAssign) and isinstance(st.target, ast.Name) and st.target.id == name and st.value:
                 val = st.value
             elif isinstance(st, ast.AugAssign) and isinstance(st.target, ast.Name) and st.target.id == name:
